@@ -116,7 +116,7 @@ PROPS = {
         "timeout": {"quick": 400, "thorough": 3600},
     },
     "C09": {
-        "suites": ["c09", "c09sub"],
+        "suites": ["c09", "c09sub", "c20cache", "scope-c07seq"],
         "assumptions": COMMON_ASSUME + [
             "data-race freedom in the sense of the Go memory model is not expressible in the interleaving model; it is supported by -race runs only",
             "a parked thread holds no lock between the read-locked probe and the write lock (tie facts)",
